@@ -156,10 +156,8 @@ impl Recreate for Slicing {
 
 impl ReturnType for Slicing {
     fn return_type(&self) -> Type {
-        self.lhs
-            .return_type()
-            .element_type()
-            .unwrap_or(Type::String)
+        // a slice is a sequence of the same kind as the sliced one
+        self.lhs.return_type()
     }
 }
 
